@@ -84,6 +84,64 @@ fn path_optimizer_k(_case: &Value, inputs: &Value) -> Value {
     }
 }
 
+fn int_from_bytes_k(_case: &Value, inputs: &Value) -> Value {
+    use chialisp::classic::clvm::__type_compatibility__::{Bytes, BytesFromType};
+    use chialisp::classic::clvm::casts::int_from_bytes;
+    let b = bytes_of(&inputs["b"]);
+    match int_from_bytes(Bytes::new(Some(BytesFromType::Raw(b))), None) {
+        Ok(v) => json!({"ok": v}),
+        Err(_) => json!({"err": true}),
+    }
+}
+
+// tools decoder vs consensus decoder on the same bytes
+fn decode_k(_case: &Value, inputs: &Value) -> Value {
+    use chialisp::classic::clvm::__type_compatibility__::{Bytes, BytesFromType, Stream};
+    use chialisp::classic::clvm::serialize::{sexp_from_stream, SimpleCreateCLVMObject};
+    let b = bytes_of(&inputs["b"]);
+    let mut a = Allocator::new();
+    let mut stream = Stream::new(Some(Bytes::new(Some(BytesFromType::Raw(b.clone())))));
+    let tools = match sexp_from_stream(&mut a, &mut stream, Box::new(SimpleCreateCLVMObject {})) {
+        Ok(r) => json!({"ok": tree_to_json(&a, r.1)}),
+        Err(_) => json!({"err": true}),
+    };
+    let mut a2 = Allocator::new();
+    let cl = match clvmr::serde::node_from_bytes(&mut a2, &b) {
+        Ok(n) => json!({"ok": tree_to_json(&a2, n)}),
+        Err(_) => json!({"err": true}),
+    };
+    json!({"tools": tools, "clvmr": cl})
+}
+
+// tools encoder vs consensus encoder, and decode of the tools bytes
+fn encode_k(case: &Value, inputs: &Value) -> Value {
+    use chialisp::classic::clvm::__type_compatibility__::{Bytes, BytesFromType, Stream};
+    use chialisp::classic::clvm::serialize::{sexp_from_stream, sexp_to_stream, SimpleCreateCLVMObject};
+    fn build(a: &mut Allocator, shape: &Value, leaves: &mut std::slice::Iter<Value>) -> NodePtr {
+        if shape.is_string() {
+            let b = bytes_of(leaves.next().unwrap());
+            a.new_atom(&b).unwrap()
+        } else {
+            let l = build(a, &shape[0], leaves);
+            let r = build(a, &shape[1], leaves);
+            a.new_pair(l, r).unwrap()
+        }
+    }
+    let mut a = Allocator::new();
+    let leaves: Vec<Value> = inputs["leaves"].as_array().unwrap().clone();
+    let n = build(&mut a, &case["shape"], &mut leaves.iter());
+    let mut s = Stream::new(None);
+    sexp_to_stream(&mut a, n, &mut s);
+    let bytes = s.get_value().data().clone();
+    let cl = clvmr::serde::node_to_bytes(&a, n).unwrap();
+    let mut s2 = Stream::new(Some(Bytes::new(Some(BytesFromType::Raw(bytes.clone())))));
+    let back = match sexp_from_stream(&mut a, &mut s2, Box::new(SimpleCreateCLVMObject {})) {
+        Ok(r) => json!({"ok": tree_to_json(&a, r.1)}),
+        Err(_) => json!({"err": true}),
+    };
+    json!({"bytes": to_json_bytes(&bytes), "clvmr_bytes": to_json_bytes(&cl), "back": back})
+}
+
 // assemble(text) -> tree (used to evaluate constant patterns natively)
 fn assemble_k(_case: &Value, inputs: &Value) -> Value {
     let mut a = Allocator::new();
@@ -96,6 +154,9 @@ fn assemble_k(_case: &Value, inputs: &Value) -> Value {
 pub fn dispatch(kernel: &str, case: &Value, inputs: &Value) -> Value {
     match kernel {
         "assemble" => assemble_k(case, inputs),
+        "int_from_bytes" => int_from_bytes_k(case, inputs),
+        "decode" => decode_k(case, inputs),
+        "encode" => encode_k(case, inputs),
         "path_optimizer" => path_optimizer_k(case, inputs),
         "nodepath" => nodepath(case, inputs),
         _ => json!({"error": format!("unknown kernel {}", kernel)}),
